@@ -33,12 +33,17 @@ func main() {
 	firstUse := flag.Bool("firstuse", false, "C16 helper: the very first verifications of this process run concurrently, with the embedded root; print verdicts and exit")
 	probe := flag.String("devprobe", "", "run client.GetRawQuote through the real LinuxDevice opened on this path, print the outcome, exit")
 	freeze := flag.String("freeze-world", "", "write a frozen honest case (for the fuzz targets) and exit")
+	fakedrv := flag.String("fakedriver", "", "helper: run the device scripts of this JSON file through the real LinuxDevice against an emulated tdx-guest driver (seccomp), print the outcomes, exit")
 	verdicts := flag.String("verdicts", "", "helper: verify the cases of this JSON file in this (differently configured) process, print the verdicts as JSON, exit")
 	flag.Parse()
 	debug.SetGCPercent(400)
 	mon.HarnessDir, mon.ModFile = *harness, *modfile
 	if *probe != "" {
 		devProbe(*probe)
+		return
+	}
+	if *fakedrv != "" {
+		fakeDriver(*fakedrv)
 		return
 	}
 	if *verdicts != "" {
